@@ -4,6 +4,8 @@ import (
 	"bytes"
 	"errors"
 	"fmt"
+	"github.com/bufbuild/protocompile/parser"
+	"google.golang.org/protobuf/reflect/protoreflect"
 	"sort"
 	"strings"
 	"sync"
@@ -132,6 +134,80 @@ func stripDeps(fd *descriptorpb.FileDescriptorProto) []byte {
 	return detBytes(c)
 }
 
+// c19SkippedMatch recognises the recorded finding on a specific import: the requested file has a field whose type is
+// written as a single unqualified name N, and the import's file declares an element that is NOT a message or enum
+// under the full name <scope>.N for one of the scopes the lookup walks through (the enclosing messages and packages
+// of the field). The resolver finds that element first, skips it because a type is wanted, and has already marked
+// the import as used. Returns a description, or "" if the import shows no such element.
+func c19SkippedMatch(c c19Case, imp string, compiled linker.File) string {
+	dep := compiled.FindImportByPath(imp)
+	if dep == nil {
+		return ""
+	}
+	h := reporter.NewHandler(nil)
+	fn, err := parser.Parse(c.Requested, strings.NewReader(c.Files[c.Requested]), h)
+	if err != nil {
+		return ""
+	}
+	pr, err := parser.ResultFromAST(fn, false, h)
+	if err != nil {
+		return ""
+	}
+	fd := pr.FileDescriptorProto()
+	why := ""
+	try := func(scope, name string) {
+		if name == "" || strings.Contains(name, ".") {
+			return // qualified and absolute names are not subject to the skip
+		}
+		for {
+			cand := name
+			if scope != "" {
+				cand = scope + "." + name
+			}
+			if d := dep.FindDescriptorByName(protoreflect.FullName(cand)); d != nil {
+				switch d.(type) {
+				case protoreflect.MessageDescriptor, protoreflect.EnumDescriptor:
+				default:
+					if why == "" {
+						why = fmt.Sprintf("field type %q: %s declares the %T %s, which the lookup meets and skips", name, imp, d, cand)
+					}
+				}
+			}
+			if scope == "" {
+				return
+			}
+			if i := strings.LastIndexByte(scope, '.'); i >= 0 {
+				scope = scope[:i]
+			} else {
+				scope = ""
+			}
+		}
+	}
+	var walk func(scope string, m *descriptorpb.DescriptorProto)
+	walk = func(scope string, m *descriptorpb.DescriptorProto) {
+		fqn := m.GetName()
+		if scope != "" {
+			fqn = scope + "." + fqn
+		}
+		for _, f := range m.Field {
+			try(fqn, f.GetTypeName())
+		}
+		for _, f := range m.Extension {
+			try(fqn, f.GetTypeName())
+		}
+		for _, n := range m.NestedType {
+			walk(fqn, n)
+		}
+	}
+	for _, m := range fd.MessageType {
+		walk(fd.GetPackage(), m)
+	}
+	for _, f := range fd.Extension {
+		try(fd.GetPackage(), f.GetTypeName())
+	}
+	return why
+}
+
 func c19Check(c c19Case, r *ev.Rec) error {
 	res, unused, err := compileWarn(c.Files, c.Requested)
 	if err != nil {
@@ -172,6 +248,14 @@ func c19Check(c c19Case, r *ev.Rec) error {
 				return fmt.Errorf("model says import %q of %s is not needed, yet removing it changes the result (err=%v): generator/model bug or linker defect\n%s", im.Path, c.Requested, err2, showFiles(c.Files))
 			}
 			if !warned[im.Path] {
+				if why := c19SkippedMatch(c, im.Path, res[0]); why != "" {
+					// recorded finding: a match of the wrong kind that the resolver skips still marks its import as used
+					if kerr := r.KnownErr("skipped-match-marks-import-used", "import %q of %s is removable but not reported: %s", im.Path, c.Requested, why); kerr != nil {
+						return fmt.Errorf("%v\n%s", kerr, showFiles(c.Files))
+					}
+					r.Label("known:skipped-match-marks-import-used")
+					continue
+				}
 				return fmt.Errorf("import %q of %s is not needed by any type, extendee or rpc type and removing it leaves the descriptor unchanged, but no unused-import warning was issued (warnings: %v)\n%s", im.Path, c.Requested, unused, showFiles(c.Files))
 			}
 		case im.Used && !im.Redundant:
@@ -422,4 +506,112 @@ func TestC19_OptionUses(t *testing.T) {
 		}
 		rec(0, nil)
 	})
+}
+
+// TestC19_SkippedMatches: an element of the wrong kind that an unqualified type name meets on its way outward -
+// contributed by an import that is otherwise not needed, or declared by the file itself.
+func TestC19_SkippedMatches(t *testing.T) {
+	shadows := map[string]string{
+		"service":     "service Foo {}",
+		"enum-value":  "enum E { Foo = 0; }",
+		"extension":   "extend google.protobuf.FileOptions { optional int32 Foo = 50001; }",
+		"sub-package": "", // x.proto declares package a.b.Foo instead
+	}
+	ev.RunEnum(t, ev.Spec[c19Case]{ID: "C19", Name: "SkippedMatches",
+		Rule:  "test.proto (package a.b) has a field of the unqualified type Foo, which is message a.Foo of y.proto, while an element named a.b.Foo that is not a type (a service, an enum value, an extension, or the package a.b.Foo) is contributed by x.proto, which is otherwise not needed, or declared by test.proto itself; optionally another field, before or after, is the only use of a further import w.proto; proto2 and proto3 (no extension there); every order of the import statements; same oracle as UnusedImports (x is removable, so it must be reported; y and w are needed); non-trivial = all",
+		Check: c19Check}, true, func(yield func(c19Case) bool) {
+		for _, syntax := range []string{"proto2", "proto3"} {
+			for _, kind := range []string{"service", "enum-value", "extension", "sub-package"} {
+				if kind == "extension" && syntax == "proto3" {
+					continue
+				}
+				for _, loc := range []string{"x", "self"} {
+					if loc == "self" && kind == "sub-package" {
+						continue
+					}
+					for _, wUse := range []string{"none", "before", "after"} {
+						label := "optional "
+						if syntax == "proto3" {
+							label = ""
+						}
+						hdr := "syntax = \"" + syntax + "\"; "
+						files := map[string]string{"y.proto": hdr + "package a; message Foo {}"}
+						imps := []string{"y.proto"}
+						model := map[string]bool{"y.proto": true}
+						own := ""
+						if loc == "x" {
+							x := hdr + "package a.b; "
+							if kind == "extension" {
+								x += "import \"google/protobuf/descriptor.proto\"; "
+							}
+							x += shadows[kind]
+							if kind == "sub-package" {
+								x = hdr + "package a.b.Foo; message Other {}"
+							}
+							files["x.proto"] = x
+							imps = append(imps, "x.proto")
+							model["x.proto"] = false
+						} else {
+							own = shadows[kind] + " "
+							if kind == "extension" {
+								imps = append(imps, "google/protobuf/descriptor.proto")
+								model["google/protobuf/descriptor.proto"] = true
+							}
+						}
+						fields := []string{label + "Foo f = 1;"}
+						if wUse != "none" {
+							files["w.proto"] = hdr + "package w; message Thing {}"
+							imps = append(imps, "w.proto")
+							model["w.proto"] = true
+							wf := label + "w.Thing t = 2;"
+							if wUse == "before" {
+								fields = []string{wf, fields[0]}
+							} else {
+								fields = append(fields, wf)
+							}
+						}
+						body := own + "message M { " + strings.Join(fields, " ") + " }"
+						text := func(order []string, skip string) string {
+							var sb strings.Builder
+							sb.WriteString(hdr + "package a.b; ")
+							for _, p := range order {
+								if p != skip {
+									sb.WriteString("import \"" + p + "\"; ")
+								}
+							}
+							return sb.String() + body
+						}
+						for _, order := range c19Perms(imps) {
+							c := c19Case{Files: map[string]string{}, Requested: "test.proto", Without: map[string]string{}}
+							for k, v := range files {
+								c.Files[k] = v
+							}
+							c.Files["test.proto"] = text(order, "")
+							for _, p := range order {
+								c.Imports = append(c.Imports, c19Import{Path: p, Used: model[p]})
+								c.Without[p] = text(order, p)
+							}
+							if !yield(c) {
+								return
+							}
+						}
+					}
+				}
+			}
+		}
+	})
+}
+
+func c19Perms(xs []string) [][]string {
+	if len(xs) <= 1 {
+		return [][]string{append([]string{}, xs...)}
+	}
+	var out [][]string
+	for i := range xs {
+		rest := append(append([]string{}, xs[:i]...), xs[i+1:]...)
+		for _, p := range c19Perms(rest) {
+			out = append(out, append([]string{xs[i]}, p...))
+		}
+	}
+	return out
 }
